@@ -183,6 +183,7 @@ class Interp:
         self.solver = z3.Solver()
         self.timeout_ms = timeout_ms
         self.domains = {}          # z3 Int var -> finite list of values (registered by argument descriptors)
+        self.domain_ids = {}       # the same, keyed by z3 ast id
         self.solver.set("timeout", timeout_ms)
         self.nq = 0
         self.solver_time = 0.0
@@ -190,6 +191,7 @@ class Interp:
         self.models = {}          # real callable -> model(it, args, kwargs)
         self.methods = {}         # (pytype, name) -> model(it, obj, args, kwargs)
         self.contracts = {}       # real function -> apply(it, args, kwargs)
+        self.dispatch_hooks = []  # [(it, DispatchMethod, args, kwargs) -> value | NotImplemented]: abstract callees for singledispatch methods
         self.native_ok = set()    # repo callables executed natively even though they are repo code (class-level computations)
         self.current_target = None
         self.st = None
@@ -463,6 +465,8 @@ class Interp:
         """-> bool or z3 Bool"""
         if isinstance(v, SBool):
             return v.e
+        if isinstance(v, z3.BoolRef):
+            return v
         if isinstance(v, SInt):
             return v.e != 0
         if isinstance(v, SStr):
@@ -474,6 +478,9 @@ class Interp:
                 return tlen(v.e) != 0
             if v.pytype is bytes:
                 return tlen(v.e) != 0
+            if v.pytype is object:
+                # value of unknown type: its truthiness is an uninterpreted predicate
+                return z3.Function("truthy", V, z3.BoolSort())(v.e)
             raise Unsupported(f"truth of opaque {v.pytype.__name__}")
         if isinstance(v, SIte):
             ta, tb = self.truth(v.a), self.truth(v.b)
@@ -483,6 +490,8 @@ class Interp:
         if isinstance(v, SObj):
             if "__len__" in v.fields:
                 return self.truth(v.fields["__len__"])
+            if "__items__" in v.fields and issubclass(v.cls, list):
+                return len(v.fields["__items__"]) > 0
             if issubclass(v.cls, (list, dict, tuple, str)):
                 raise Unsupported("truth of symbolic container instance without __len__ ghost")
             return True
@@ -540,6 +549,10 @@ class Interp:
                 raise Unsupported(f"no source for {f.__qualname__}")
             clo = Closure(node, None, self.module_of(f), f.__qualname__, real=f)
             return self.call_closure(clo, args, kwargs)
+        if isinstance(f, types.FunctionType):
+            fm = getattr(f, "__module__", "") or ""
+            if (fm.startswith("pyvc") or fm.startswith("contracts")) and not fm.startswith("contracts.spec"):
+                return self.native(f, args, kwargs)      # a model closure handed out by an abstract object
         if isinstance(f, type):
             return self.instantiate(f, args, kwargs)
         if isinstance(f, types.BuiltinMethodType) and not isinstance(f.__self__, types.ModuleType) and f.__self__ is not None \
@@ -587,6 +600,10 @@ class Interp:
     def call_dispatch(self, dm, args, kwargs):
         if not args:
             raise Unsupported("dispatch without args")
+        for hook in self.dispatch_hooks:
+            r = hook(self, dm, args, kwargs)
+            if r is not NotImplemented:
+                return r
         a0 = self.force(args[0])
         args = [a0] + list(args[1:])
         t = self.pytype_of(a0)
@@ -609,6 +626,11 @@ class Interp:
         a = node.args
         params = [p.arg for p in a.posonlyargs + a.args]
         args = list(args)
+        akw = kwargs.pop("__akw__", None)
+        if akw is not None:
+            clash = [p for p in params + [x.arg for x in a.kwonlyargs] if p in akw.keys]
+            if clash or not a.kwarg or kwargs:
+                raise Unsupported("abstract **kwargs passed to a function with matching named parameters")
         npos = len(params)
         for i, p in enumerate(params):
             if i < len(args):
@@ -632,7 +654,9 @@ class Interp:
                 env[p.arg] = kwdefaults[p.arg]
             else:
                 raise Raised(ExcVal(TypeError, (f"missing keyword-only argument {p.arg}",)))
-        if a.kwarg:
+        if a.kwarg and akw is not None:
+            env[a.kwarg.arg] = akw
+        elif a.kwarg:
             env[a.kwarg.arg] = dict(kwargs)
         elif kwargs:
             raise Raised(ExcVal(TypeError, (f"unexpected keyword arguments {list(kwargs)}",)))
@@ -1038,6 +1062,8 @@ class Interp:
             return [(g, SStr([(True, c)])) for g, c in it.items]
         if isinstance(it, GList):
             return list(it.items)
+        if isinstance(it, Abstract) and hasattr(it, "p_giter"):
+            return list(it.p_giter(self))
         return [(True, x) for x in self.iterate(it)]
 
     # ------------------------------------------------------------- expressions
@@ -1294,6 +1320,47 @@ class Interp:
 
     def ev_Starred(self, e, env):
         raise Unsupported("starred")
+
+    # ------------------------------------------------------------- loop bodies
+    def find_loop(self, fnode, ordinal):
+        """the ordinal-th (1-based, source order) for/while statement directly inside function node fnode
+        (nested function definitions are not entered)"""
+        found = []
+
+        def walk(stmts):
+            for st in stmts:
+                if isinstance(st, (ast.For, ast.While)):
+                    found.append(st)
+                if isinstance(st, (ast.FunctionDef, ast.ClassDef)):
+                    continue
+                for fld in ("body", "orelse", "finalbody"):
+                    sub = getattr(st, fld, None)
+                    if isinstance(sub, list):
+                        walk(sub)
+                for h in getattr(st, "handlers", []) or []:
+                    walk(h.body)
+        walk(fnode.body)
+        if ordinal > len(found):
+            raise Unsupported(f"loop #{ordinal} not found")
+        return found[ordinal - 1]
+
+    def exec_loop_body(self, fnode, ordinal, env, target_value):
+        """one execution of the body of loop #ordinal of fnode with the loop target bound to target_value.
+        -> ('next', None) | ('continue', None) | ('break', None) | ('return', value); exceptions propagate as Raised"""
+        loop = self.find_loop(fnode, ordinal)
+        if not isinstance(loop, ast.For):
+            raise Unsupported("while loop body")
+        self.assign(loop.target, target_value, env)
+        try:
+            for st in loop.body:
+                self.stmt(st, env)
+        except ContinueEx:
+            return ("continue", None)
+        except BreakEx:
+            return ("break", None)
+        except ReturnEx as r:
+            return ("return", r.v)
+        return ("next", None)
 
     # --------------------------------------------------------- expression text
     def eval_src(self, src, variables, module=None):
